@@ -2,6 +2,7 @@ package props
 
 import (
 	"errors"
+	"os/exec"
 	"fmt"
 	"io"
 	"os"
@@ -468,6 +469,72 @@ func runC19(c *fw.Ctx, idx int) fw.Result {
 			} else {
 				res.Count("limits_not_binding_ok", 1)
 			}
+		}
+	}
+	// ---- closed pipe: stdout is a pipe whose reader is gone before the first byte
+	if !dirMode && S > 0 {
+		// the same command writing to standard output ("-o stdout" is every command's default)
+		pargs := append([]string{}, args...)
+		for i := range pargs {
+			if pargs[i] == outPath && i > 0 && pargs[i-1] == "-o" {
+				pargs[i] = "stdout"
+			}
+		}
+		if !redirect {
+			// standard output redirected to a size-limited file: the stdout path of the writer
+			for _, L := range []int{0, S - 1} {
+				quoted := make([]string, len(pargs))
+				for i, a := range pargs {
+					quoted[i] = "'" + strings.ReplaceAll(a, "'", "'\\''") + "'"
+				}
+				sh := "exec '" + c.Bin + "' " + strings.Join(quoted, " ") + " > '" + outPath + "'"
+				os.Remove(outPath)
+				br := fw.RunBin("prlimit", []string{"--fsize=" + fmt.Sprint(L), "sh", "-c", sh}, nil, nil, d, 60*time.Second)
+				res.Evals++
+				if br.TimedOut {
+					res.Inconclusive = append(res.Inconclusive, "binary watchdog fired under RLIMIT_FSIZE (stdout)")
+					continue
+				}
+				res.Count("limits_applied_stdout", 1)
+				res.Sig(fmt.Sprintf("bin|%s|%d|stdout|%d", en.name, variant, L))
+				if br.Exit == 0 {
+					files := cloneFiles(en.files)
+					files["stderr.txt"] = clipStr(string(br.Stderr), 4000)
+					res.Fail(en.name+":binary:stdout:failure-ignored", fmt.Sprintf("%s: standard output (a file) accepted only %d of %d bytes (RLIMIT_FSIZE) but the command exited 0", en.name, L, S), files, append([]string{fmt.Sprintf("RLIMIT_FSIZE=%d stdout>file", L)}, pargs...))
+				}
+			}
+		}
+		args := pargs
+		pr, pw, err := os.Pipe()
+		if err == nil {
+			pr.Close()
+			cmd := exec.Command(c.Bin, args...)
+			cmd.Dir = d
+			cmd.Stdout = pw
+			var eb bytes.Buffer
+			cmd.Stderr = &eb
+			done := make(chan error, 1)
+			if err := cmd.Start(); err == nil {
+				go func() { done <- cmd.Wait() }()
+				select {
+				case werr := <-done:
+					res.Evals++
+					res.Count("closed_pipe_runs", 1)
+					res.Sig(fmt.Sprintf("bin|%s|%d|closed-pipe", en.name, variant))
+					if werr == nil {
+						files := cloneFiles(en.files)
+						files["stderr.txt"] = clipStr(eb.String(), 4000)
+						res.Fail(en.name+":binary:closed-pipe-ignored", fmt.Sprintf("%s: standard output was a pipe with no reader (every write fails with EPIPE), %d bytes were due, but the command exited 0", en.name, S), files, append([]string{"stdout=closed pipe"}, args...))
+					} else {
+						res.Count("closed_pipe_reported", 1)
+					}
+				case <-time.After(60 * time.Second):
+					cmd.Process.Kill()
+					<-done
+					res.Inconclusive = append(res.Inconclusive, "binary watchdog fired with a closed stdout pipe")
+				}
+			}
+			pw.Close()
 		}
 	}
 	if idx < 3 {
